@@ -143,14 +143,15 @@ def run(pid, tier, seed, replay=None):
         trace_all += tr
     V.log("S4: %d recorded lines judged by the TLA+ monitor %s, %d flags" % (len(trace_all), MONITOR[0], len(flags_all)))
 
-    # every flagged cell is its own one-step scenario (cells are independent): give each its own trace id
-    for f in flags_all:
-        r = trace_all[f["line"] - 1]
-        f["trace"] = "%s-%d" % (r["t"], f["line"])
-        f["act"] = "%s.%s" % (r["c"], r["m"])
+    # cells are independent one-step scenarios; the flags of one method on one chain form a "trace" so that only the
+    # first offending cell of the method is reported (the replay file holds that cell)
     cell_of = {}
-    for i, r in enumerate(trace_all):
-        cell_of["%s-%d" % (r["t"], i + 1)] = r
+    for f in sorted(flags_all, key=lambda f: f["line"]):
+        r = trace_all[f["line"] - 1]
+        f["trace"] = "n%s-%s.%s-%s%s" % (r["t"], r["c"], r["m"], r["a"], r["v"])
+        f["act"] = "%s.%s" % (r["c"], r["m"])
+        if f["prop"] == pid:
+            cell_of.setdefault(f["trace"], r)
 
     def scenario_of(tid):
         r = cell_of[tid]
